@@ -161,3 +161,45 @@ package rdb
 
 //@ func RDB.CreateBatch
 //@ ensures result != nil && fresh(result) && len(result.addedPairs) == 0 && len(result.deletedPairs) == 0 && result.sorted
+
+// ---- ExecuteBatch (C07, C08, C15): the read-modify-write of all affected keys happens under writeMutex, --
+// ---- goes to the store as ONE write batch, and a failing integration writes nothing -----------------------
+//@ func DBI.NewBatch
+//@ trusted
+//@ ensures result != nil
+//@ func DBI.ExecuteBatch
+//@ trusted
+//@ updates dbWrites, dbLastOp
+//@ ensures dbWrites == old(dbWrites) + 1 && dbLastOp == 3
+//@ ensures err != ErrNXKey && err != ErrNXVal && err != io.ErrUnexpectedEOF
+//@ extern github.com/facebookincubator/dns/dnsrocks/cgo-rocksdb Batch.Put
+//@ pure
+//@ extern github.com/facebookincubator/dns/dnsrocks/cgo-rocksdb Batch.Delete
+//@ pure
+//@ extern github.com/facebookincubator/dns/dnsrocks/cgo-rocksdb Batch.Destroy
+//@ pure
+
+// getAffectedKeys / integrate: interface used by ExecuteBatch (their own bodies: see below)
+//@ func Batch.getAffectedKeys
+//@ trusted
+//@ modifies recv
+//@ ensures fresh(result) || result == nil
+
+//@ func Batch.integrate
+//@ trusted
+//@ requires dbValues != nil && len(*dbValues) == len(uniqueKeys)
+//@ modifies dbValues
+//@ ensures err == nil ==> len(*dbValues) == len(uniqueKeys)
+
+//@ func RDB.ExecuteBatch
+//@ updates dbWrites, dbLastOp
+//@ flag skip frame
+//@ requires recv.writeMutex != nil && recv.db != nil && batch != nil
+//@ ensures[empty] old(len(batch.addedPairs) + len(batch.deletedPairs)) == 0 ==> err == nil && dbWrites == old(dbWrites)
+//@ ensures[atomic] dbWrites == old(dbWrites) || (dbWrites == old(dbWrites) + 1 && dbLastOp == 3)
+//@ ensures[failnowrite] err == ErrNXKey || err == ErrNXVal || err == io.ErrUnexpectedEOF ==> dbWrites == old(dbWrites)
+//@ before DBI.GetMulti#0 assert[locked-read] held(rdb.writeMutex) == 2
+//@ before Batch.integrate#0 assert[locked-merge] held(rdb.writeMutex) == 2
+//@ before DBI.ExecuteBatch#0 assert[locked-write] held(rdb.writeMutex) == 2
+//@ loop 0 invariant dbWrites == old(dbWrites) && held(rdb.writeMutex) == 2
+//@ loop 1 invariant dbWrites == old(dbWrites) && held(rdb.writeMutex) == 2 && len(dbValues) == len(uniqueKeys) && 0 <= idx && idx <= len(uniqueKeys)
